@@ -23,7 +23,7 @@ pub struct Script {
     pub stop: Stop,
 }
 
-pub const KINDS: [(u8, &str); 7] = [
+pub const KINDS: [(u8, &str); 8] = [
     (1, "(user 1)"),
     (2, "(user 2)"),
     (3, "(user 3)"),
@@ -31,7 +31,22 @@ pub const KINDS: [(u8, &str); 7] = [
     (5, "other"),
     (6, "invalidData"),
     (7, "unexpectedEof"),
+    (8, "outOfMemory"),
 ];
+
+/// a scripted hard failure: message ids from 900 up stand for an error built from the bare kind
+/// (`ErrorKind::X.into()`, whose text is the kind's own description); `Other` always carries a
+/// message (its description differs between std and the shim, and borsh never builds it)
+pub fn script_error(k: u8, id: u32) -> Error {
+    if id >= 900 && k != 5 {
+        Error::from(kind_of(k))
+    } else {
+        Error::new(kind_of(k), format!("user:{}", id))
+    }
+}
+pub fn script_msg(k: u8, id: u32) -> String {
+    if id >= 900 && k != 5 { "simple".to_string() } else { format!("(user {})", id) }
+}
 
 fn kind_of(code: u8) -> ErrorKind {
     match code {
@@ -41,6 +56,7 @@ fn kind_of(code: u8) -> ErrorKind {
         4 => ErrorKind::BrokenPipe,
         5 => ErrorKind::Other,
         6 => ErrorKind::InvalidData,
+        8 => ErrorKind::OutOfMemory,
         _ => ErrorKind::UnexpectedEof,
     }
 }
@@ -130,7 +146,7 @@ impl<'a> Read for ScriptReader<'a> {
         }
         if let Stop::Fail(o, k, id) = self.sc.stop {
             if o == self.pos {
-                return Err(Error::new(kind_of(k), format!("user:{}", id)));
+                return Err(script_error(k, id));
             }
         }
         let remaining = self.data.len() - self.pos;
@@ -160,7 +176,7 @@ impl Write for ScriptWriter {
             });
         }
         match self.sc.stop {
-            Stop::Fail(so, k, id) if so == o => return Err(Error::new(kind_of(k), format!("user:{}", id))),
+            Stop::Fail(so, k, id) if so == o => return Err(script_error(k, id)),
             Stop::Zero(so) if so == o => return Ok(0),
             _ => {}
         }
@@ -265,6 +281,48 @@ pub fn c11<T: Full>(g: &mut Gen, b: &Budget, out: &mut Sink) {
                 out.oracle("C11", o == "err invalidData notAllBytesRead", &case, &o);
             }
         }
+        // (c) malformed and arbitrary streams: the reader entry points answer exactly as the slice
+        // entry points do on the same bytes - same value and consumption, or the same refusal
+        let mut muts = crate::ops::mutations(g, &bs, false);
+        let keep = if b.thorough { 24 } else { 8 };
+        while muts.len() > keep {
+            let i = g.below(muts.len() as u64) as usize;
+            muts.swap_remove(i);
+        }
+        for x in muts {
+            if x.len() > 600 {
+                continue;
+            }
+            let sc = Script { chunks: gen_chunks(g, x.len()), intr: gen_intr(g, x.len()), stop: Stop::None };
+            let slice_dr = match guarded(|| {
+                let mut s = &x[..];
+                T::deserialize(&mut s).map(|v| (v, x.len() - s.len()))
+            }) {
+                Ok(Ok((v, used))) => format!("ok {} pulled={}", canon_of(&v), used),
+                Ok(Err(e)) => show_err(&e),
+                Err(_) => "panic".into(),
+            };
+            let case = format!("decR {} {} {} {} dr", MODE, ty, hex(&x), sc.sexp());
+            let o = run_reader::<T>("dr", &sc, &x);
+            out.case(&case, &o);
+            out.oracle("C11", o == slice_dr, &case, &format!("reader gave {} but the slice gave {}", o, slice_dr));
+            let slice_fs = match guarded(|| borsh::from_slice::<T>(&x)) {
+                Ok(Ok(v)) => format!("ok {} pulled={}", canon_of(&v), x.len()),
+                Ok(Err(e)) => show_err(&e),
+                Err(_) => "panic".into(),
+            };
+            let slice_tfs = match guarded(|| T::try_from_slice(&x)) {
+                Ok(Ok(v)) => format!("ok {} pulled={}", canon_of(&v), x.len()),
+                Ok(Err(e)) => show_err(&e),
+                Err(_) => "panic".into(),
+            };
+            for (entry, want) in [("fr", &slice_fs), ("tfr", &slice_tfs)] {
+                let case = format!("decR {} {} {} {} {}", MODE, ty, hex(&x), sc.sexp(), entry);
+                let o = run_reader::<T>(entry, &sc, &x);
+                out.case(&case, &o);
+                out.oracle("C11", &o == want, &case, &format!("reader gave {} but the slice gave {}", o, want));
+            }
+        }
         // (b) a hard failure at every offset
         let offsets: Vec<usize> = if len <= 24 || b.thorough {
             (0..=len + 1).collect()
@@ -284,9 +342,9 @@ pub fn c11<T: Full>(g: &mut Gen, b: &Budget, out: &mut Sink) {
             if o_fail >= len {
                 // a failure the decoder never reaches is invisible
                 out.oracle("C11", o == format!("ok {} pulled={}", want, len), &case, &o);
-            } else if code <= 6 {
+            } else if code != 7 {
                 // a genuine failure inside the value comes back with kind and message unchanged
-                out.oracle("C11", o == format!("err {} (user {})", kind_sexp(code), id), &case, &o);
+                out.oracle("C11", o == format!("err {} {}", kind_sexp(code), script_msg(code, id)), &case, &o);
             }
         }
     }
@@ -387,7 +445,7 @@ pub fn c12<T: Full>(g: &mut Gen, b: &Budget, out: &mut Sink) {
             if k < len {
                 let want = match stop {
                     Stop::Zero(_) => "err writeZero writeZeroMsg".to_string(),
-                    Stop::Fail(_, code, id) => format!("err {} (user {})", kind_sexp(code), id),
+                    Stop::Fail(_, code, id) => format!("err {} {}", kind_sexp(code), script_msg(code, id)),
                     Stop::None => unreachable!(),
                 };
                 out.oracle("C12", st == want && del == full[..k], &case,
